@@ -24,7 +24,7 @@ class Case:
 
 class FnSpec:
     def __init__(self, fid, file, name, sig=None, atoms=('Fq',), cases=None, post=None, extra=None,
-                 prop=(), doc='', max_paths=400, hook=None, oracle=None, pre_num=None):
+                 prop=(), doc='', max_paths=400, hook=None, oracle=None, pre_num=None, search_max=None):
         self.fid = fid            # obligation id stem, e.g. 'fq2::mul_inplace'
         self.file = file
         self.name = name          # regex on the normalised short name
@@ -38,6 +38,7 @@ class FnSpec:
         self.max_paths = max_paths
         self.hook = hook          # (driver fn name, [arg types], ret type | 'opt:<ty>' | 'bool')
         self.oracle = oracle      # f(Algebra, *args) -> value ; shared by the symbolic post and the numeric replay oracle
+        self.search_max = search_max
         self.pre_num = pre_num    # numeric input filter / shaper for functions with preconditions
 
 class Result:
@@ -158,11 +159,18 @@ def verify_function(funcs, spec, seed=0):
                             prev[4] += 1
                             prev[2] += time.time() - t1
                     else:
-                        env = random_point(st2.facts, [bad[1]], seed)
+                        argleaves = []
+                        for a_ in case.args:
+                            try:
+                                argleaves += [x for x in SYM.leaves(unref(interp, st2, a_)) if isinstance(x, Poly)]
+                            except Exception:
+                                pass
+                        env = random_point(st2.facts, [bad[1]] + argleaves, seed)
                         witness = None
                         if env is not None:
                             val = bad[1].eval(env, st2.facts.char) if all(x in env for x in bad[1].vars()) else None
-                            witness = {'env': {k: hex(v) for k, v in env.items()}, 'residue_value': hex(val) if val is not None else None}
+                            witness = {'env': {k: hex(v) for k, v in env.items()}, 'residue_value': hex(val) if val is not None else None,
+                                       'args': concrete_args(interp, st2, case, env)}
                         clause_status[oid] = ['refuted', 'path [%s]: residue %r' % (' '.join(st2.trace[-8:]), bad[1]),
                                               time.time() - t1, witness, 1]
             if npath == 0:
@@ -203,3 +211,22 @@ def simple_cases(tys, atoms, by_ref=True):
             args.append(ref(v) if (by_ref if isinstance(by_ref, bool) else by_ref[i]) else v)
         return [Case('all', args)]
     return cases
+
+
+def concrete_args(interp, st, case, env):
+    """numeric values of the case's arguments at the witness point (None if some leaf cannot be evaluated)"""
+    q = st.facts.char
+    def ev(v):
+        v = unref(interp, st, v)
+        if isinstance(v, Poly):
+            p = st.facts.norm(v)
+            if not all(x in env for x in p.vars()):
+                raise KeyError
+            return p.eval(env, q)
+        if is_struct(v):
+            return ('struct', v[1], [ev(x) for x in v[2]])
+        raise KeyError
+    try:
+        return [ev(a) for a in case.args]
+    except KeyError:
+        return None
